@@ -1,5 +1,6 @@
 """C19 - documented metric/axis/output combinations never crash (structural causes of crashes)."""
 import ast
+import re
 import importlib
 
 from .. import q
@@ -368,19 +369,174 @@ def check_writers(ctx):
     om = prog.module("verif.output")
     base = prog.cls("verif.output.Output")
     cases = {}
-    for name in ("text", "csv"):
-        f = base.methods[name]
+    def axis_cases(f, depth=0):
+        """axis cases compared in the writer itself or in the helper methods of the class it calls (two levels)"""
         found = set()
         for n in ast.walk(f):
             if isinstance(n, ast.Compare) and dotted(n.left) == "self.axis" and isinstance(n.ops[0], ast.Eq):
                 found.add(norm(n.comparators[0]))
-        cases[name] = found
+            elif depth < 2 and isinstance(n, ast.Call) and isinstance(n.func, ast.Attribute) and dotted(n.func.value) == "self" \
+                    and n.func.attr in base.methods and n.func.attr not in ("text", "csv", "_get_x_y"):
+                found |= axis_cases(base.methods[n.func.attr], depth + 1)
+        return found
+    for name in ("text", "csv"):
+        cases[name] = axis_cases(base.methods[name])
     ctx.ob("C19.6", "verif.output.Output", cases["text"] == cases["csv"] and len(cases["text"]) >= 3, "text() and csv() handle the same axis cases %s" % sorted(cases["text"]),
            msg="text() handles %s but csv() handles %s: one of the two output types crashes for the missing axis" % (sorted(cases["text"]), sorted(cases["csv"])))
     for name in ("text", "csv"):
         src = norm(base.methods[name])
         ctx.ob("C19.6", "verif.output.Output." + name, "is None" in src and "'All'" in src, "%s() prints 'All' for a descriptor without values" % name,
                msg="%s() indexes a descriptor that can be None (-x obs/fcst without -r)" % name)
+
+
+_DIRECTIVE = re.compile(r"%(\([^)]*\))?([-+ #0]*)(\*|\d+)?(?:\.(\*|\d+))?[hlL]?([a-zA-Z%])")
+_NUMERIC_CONV = set("gGfFeEdiouxXc")
+_STRING_TYPES = {"basestring", "str", "unicode", "bytes", "six.string_types", "string_types"}
+
+
+def _percent_args(fmt, right):
+    """(conversion character, argument node) for each directive of a %-format, '*' widths consuming their own argument."""
+    args = list(right.elts) if isinstance(right, ast.Tuple) else [right]
+    pos = 0
+    out = []
+    for m_ in _DIRECTIVE.finditer(fmt):
+        if m_.group(5) == "%":
+            continue
+        if m_.group(1):
+            return []           # mapping keys: not used by the writers
+        pos += (m_.group(3) == "*") + (m_.group(4) == "*")
+        if pos < len(args):
+            out.append((m_.group(5), args[pos]))
+        pos += 1
+    return out
+
+
+def _mentions_element(node, names):
+    """Does the expression use an ELEMENT of one of the descriptor tables (a subscript rooted at it; len(...) does not count)?"""
+    skip = set()
+    for n in ast.walk(node):
+        if isinstance(n, ast.Call) and dotted(n.func) == "len":
+            skip.update(id(x) for x in ast.walk(n))
+    for n in ast.walk(node):
+        if id(n) in skip:
+            continue
+        if isinstance(n, ast.Subscript):
+            base = n
+            while isinstance(base, ast.Subscript):
+                base = base.value
+            if isinstance(base, ast.Name) and base.id in names:
+                return True
+    return False
+
+
+def _string_guarded(node, pm, names):
+    """Is the node only reached when the descriptor element is known not to be a string (else-branch of isinstance(elem, str-type),
+    body of a numeric isinstance test, or inside a try that catches TypeError/ValueError)?"""
+    child = node
+    while child in pm:
+        par = pm[child]
+        if isinstance(par, (ast.If, ast.IfExp)):
+            test = par.test
+            neg = False
+            if isinstance(test, ast.UnaryOp) and isinstance(test.op, ast.Not):
+                test, neg = test.operand, True
+            if isinstance(test, ast.Call) and dotted(test.func) == "isinstance" and len(test.args) == 2 and _mentions_element(test.args[0], names):
+                tys = [dotted(t) for t in (test.args[1].elts if isinstance(test.args[1], ast.Tuple) else [test.args[1]])]
+                is_str_test = all(t in _STRING_TYPES for t in tys)
+                body = par.body if isinstance(par.body, list) else [par.body]
+                orelse = par.orelse if isinstance(par.orelse, list) else [par.orelse]
+                in_body = any(child is b for b in body)
+                in_else = any(child is b for b in orelse)
+                if is_str_test and ((in_else and not neg) or (in_body and neg)):
+                    return True
+                if not is_str_test and not any(t in _STRING_TYPES for t in tys) and ((in_body and not neg) or (in_else and neg)):
+                    return True
+        if isinstance(par, ast.Try) and any(child is b for b in par.body):
+            for h in par.handlers:
+                caught = [dotted(t) for t in (h.type.elts if isinstance(h.type, ast.Tuple) else [h.type])] if h.type is not None else ["BaseException"]
+                if any(c in ("TypeError", "ValueError", "Exception", "BaseException") for c in caught):
+                    return True
+        child = par
+    return False
+
+
+def check_descriptor_formats(ctx):
+    """Row descriptors (Data.get_axis_descriptions) are date STRINGS for every time-like axis and numbers otherwise; a numeric
+    conversion (%g, %d, float(), '{:g}') of a descriptor element that is not guarded by a string test ends -x time/week/month/year
+    output in an unhandled TypeError."""
+    prog = ctx.prog
+    g = prog.own_method("verif.data.Data.get_axis_descriptions")
+    may_be_str = any(isinstance(n, ast.Call) and isinstance(n.func, ast.Attribute) and n.func.attr in ("strftime", "isoformat", "format") or
+                     (isinstance(n, ast.Call) and dotted(n.func) == "str") for n in ast.walk(g))
+    ctx.ob("C19.7", "verif.data.Data.get_axis_descriptions", True, "descriptor element types: %s" % ("str (formatted dates) or number" if may_be_str else "number"),
+           nontrivial=False)
+    if not may_be_str:
+        ctx.note("C19.7: get_axis_descriptions no longer formats strings; the numeric-format rule has nothing to decide")
+        return
+    users = 0
+    convs = 0
+    # functions that hand the descriptor table on (a helper returning data.get_axis_descriptions(...)) are sources too: fixed point
+    sources = {"get_axis_descriptions"}
+
+    def tainted_names(f):
+        names = set()
+        for n in ast.walk(f):
+            if isinstance(n, ast.Assign) and isinstance(n.value, ast.Call) and isinstance(n.value.func, (ast.Attribute, ast.Name)) \
+                    and (n.value.func.attr if isinstance(n.value.func, ast.Attribute) else n.value.func.id) in sources:
+                for t in n.targets:
+                    if isinstance(t, ast.Name):
+                        names.add(t.id)
+                    elif isinstance(t, ast.Tuple):
+                        names.update(e.id for e in t.elts if isinstance(e, ast.Name))
+        return names
+    changed = True
+    while changed:
+        changed = False
+        for qual, m, c, f in prog.all_functions():
+            if f.name in sources:
+                continue
+            names = tainted_names(f)
+            for n in ast.walk(f):
+                if isinstance(n, ast.Return) and n.value is not None:
+                    v = n.value
+                    direct = isinstance(v, ast.Call) and isinstance(v.func, (ast.Attribute, ast.Name)) and \
+                        (v.func.attr if isinstance(v.func, ast.Attribute) else v.func.id) in sources
+                    if direct or (isinstance(v, ast.Name) and v.id in names):
+                        sources.add(f.name)
+                        changed = True
+                        break
+    for qual, m, c, f in prog.all_functions():
+        names = tainted_names(f)
+        if not names:
+            continue
+        users += 1
+        pm = parent_map(f)
+        sites = []
+        for n in ast.walk(f):
+            if isinstance(n, ast.BinOp) and isinstance(n.op, ast.Mod) and isinstance(const(n.left), str):
+                for conv, arg in _percent_args(const(n.left), n.right):
+                    if conv in _NUMERIC_CONV and _mentions_element(arg, names):
+                        sites.append((n, "%%%s" % conv))
+            elif isinstance(n, ast.Call) and dotted(n.func) in ("float", "int", "round") and n.args and _mentions_element(n.args[0], names):
+                sites.append((n, dotted(n.func) + "()"))
+            elif isinstance(n, ast.FormattedValue) and n.format_spec is not None and _mentions_element(n.value, names):
+                spec = "".join(v.value for v in n.format_spec.values if isinstance(v, ast.Constant) and isinstance(v.value, str))
+                if spec and spec[-1] in _NUMERIC_CONV | {"n", "%"}:
+                    sites.append((n, "f-string :%s" % spec))
+            elif isinstance(n, ast.Call) and isinstance(n.func, ast.Attribute) and n.func.attr == "format" and isinstance(const(n.func.value), str) \
+                    and re.search(r"\{[^}]*:[^}]*[gGfFeEdn%]\}", const(n.func.value)) and any(_mentions_element(a, names) for a in n.args):
+                sites.append((n, "str.format numeric spec"))
+        for n, what in sites:
+            convs += 1
+            ok = _string_guarded(n, pm, names)
+            ctx.ob("C19.7", qual, ok, "numeric conversion %s of a row descriptor is reached only for non-string descriptors" % what, loc=prog.loc(m, n),
+                   msg="%s is applied to an element of %s, which holds formatted date strings for every time-like axis (Data.get_axis_descriptions): "
+                       "-x time/day/week/month/year output ends in an unhandled TypeError" % (what, "/".join(sorted(names))),
+                   sample={"rule": "C19.7", "function": qual, "conversion": what, "guarded": ok})
+    ctx.need(users >= 2, "fewer than 2 users of get_axis_descriptions found (confirmed: Output.text, Output.csv)")
+    ctx.control("C19.7", [c_ for c_, _a in _percent_args("%-*g| %s %d%%", ast.parse("(a, b, c, d)").body[0].value)] == ["g", "s", "d"],
+                "%-format directives are paired with their arguments ('*' consumes one)")
+    ctx.sample({"rule": "C19.7", "functions_using_descriptors": users, "numeric_conversions": convs})
 
 
 def run(ctx):
@@ -398,6 +554,8 @@ def run(ctx):
     check_guard_use(ctx)
     check_empty_reductions(ctx)
     check_writers(ctx)
+    ctx.rule("C19.7", "numeric conversions of row descriptors (strings for time-like axes) are guarded by a string test")
+    check_descriptor_formats(ctx)
     ctx.floor("C19.3", 90)
 
 
@@ -409,5 +567,5 @@ CLAIM = {
     "note": "Trusted: CPython ast, importlib/getattr inspection of the installed numpy/scipy/matplotlib/netCDF4 (the program itself is not "
             "imported or run). The rank rule covers the Metric.compute family only.",
     "technique": "static analysis: library API existence against installed versions, rank lint, registry/MRO hook exhaustiveness, "
-                 "nullness guard analysis, guard/use contradiction rule",
+                 "nullness guard analysis, guard/use contradiction rule, element-type lint on row descriptors (C19.7)",
 }
